@@ -477,12 +477,14 @@ theorem retry_step (st : St ρ) ts outs bb (h : st.scopes ≠ []) :
     apply inv_seq _ _ (ih.onePass st _ _ _ _ h)
     intro h1 r
     split
+    · exact Inv.refl _ h1
     · split
-      · exact Inv.refl _ h1
       · split
-        · exact inv_of_fields _ _ h1 rfl rfl rfl rfl
-        · exact (inv_of_fields _ _ h1 rfl rfl rfl rfl).trans (ih.retry _ _ _ _ h1)
-    · exact ih.retry _ _ _ _ h1
+        · exact Inv.refl _ h1
+        · split
+          · exact inv_of_fields _ _ h1 rfl rfl rfl rfl
+          · exact (inv_of_fields _ _ h1 rfl rfl rfl rfl).trans (ih.retry _ _ _ _ h1)
+      · exact ih.retry _ _ _ _ h1
 
 theorem processNodes_step (st : St ρ) ks (h : st.scopes ≠ []) :
     Inv st (Ctl.processNodes ev (fuel + 1) st ks).1 := by
